@@ -919,8 +919,11 @@ def check_b(case: dict, ev: Evidence, known: T.Optional[T.Set[str]] = None) -> T
     ev.case(case, nontrivial=nontrivial_b(case), cls=class_b(case))
     if any(o['snap']['dir'] and not o['snap']['buildfile'] and o['rc'] != 0 for o in obs):
         ev.event('B-note:dir-without-buildfile-left-after-failed-run(not a patch/diff failure)')
-    if any(o['crash'] and o['rc'] == 0 for o in obs):
-        ev.exclude('run printed "Unhandled python OSError" and exited 0 (known finding, judged by the probe): treated as a failed run')
+    if f is None and any(o['crash'] and o['rc'] == 0 for o in obs):
+        # (was a confirmed finding, fixed in /repo: mesonmain.errorhandler returned `e.errno or 0`)
+        f = Failure('required-lookup/exit-0-after-unhandled-OSError', case,
+                    'a run printed an unhandled python exception and still exited with status 0; rcs '
+                    + str([o['rc'] for o in obs]))
     if any(o['crash'] for o in obs):
         ev.event('B-note:unhandled-python-exception-on-corrupt-archive(outside the property)')
     if any(any(x.startswith('tmp') for x in o['snap']['cache']) for o in obs):
